@@ -55,7 +55,7 @@ func runKeepAlive(steps []kaStep, k, req int, unit time.Duration) string {
 	if fed {
 		m.c.Write(pkt(0x82, append([]byte{0, 7}, append(lp([]byte("ka/feed")), 0)...)))
 		if p, err := readPkt(m.c, r.tmo); err != nil || p.first != 0x90 {
-			return fmt.Sprintf("INFRA subscribe of the fed client: %v", err)
+			return fmt.Sprintf("the client connected with keep-alive %d s and sent a SUBSCRIBE right away, but got no SUBACK (%v): the connection was dropped while the client was active", k, err)
 		}
 		go func() {
 			tick := time.NewTicker(3 * unit)
